@@ -43,13 +43,82 @@ def intDigits (i : Int) : List Char :=
 
 def f64Finite (bits : Nat) : Bool := bits / 4503599627370496 % 2048 != 2047
 
+/-! ### shortest round-trip text of a finite double (what serde_json prints through `ryu`)
+
+Exact integer arithmetic: the double is `m·2^e`; its rounding interval reaches half-way to the
+neighbours (closed when `m` is even); the output is the decimal `d·10^k` in that interval with the
+largest `k`, the `d` closest to the value (ties to even), laid out by ryu's `format64`. -/
+
+/-- `⌊a / b⌋` and `⌈a / b⌉` on naturals -/
+def ceilDiv (a b : Nat) : Nat := (a + b - 1) / b
+
+/-- round `a / b` to the nearest integer, ties to even -/
+def roundDivEven (a b : Nat) : Nat :=
+  let q := a / b
+  let r := a % b
+  if 2 * r < b then q else if b < 2 * r then q + 1 else if q % 2 = 0 then q else q + 1
+
+/-- candidates at power `k`: `(dmin, dmax, closest)` for the interval `[lo, hi]/den` around `v/den` -/
+def decCandidates (lo v hi den : Nat) (closed : Bool) (k : Int) : Nat × Nat × Nat :=
+  let a := if k < 0 then 10 ^ k.natAbs else 1
+  let b := den * (if k < 0 then 1 else 10 ^ k.natAbs)
+  let dmax0 := hi * a / b
+  let dmax := if !closed && hi * a % b = 0 then dmax0 - 1 else dmax0
+  let dmin0 := ceilDiv (lo * a) b
+  let dmin := if !closed && lo * a % b = 0 then dmin0 + 1 else dmin0
+  (dmin, dmax, roundDivEven (v * a) b)
+
+/-- search downwards from `k` for the first power with a candidate -/
+def shortestFrom (lo v hi den : Nat) (closed : Bool) : Nat → Int → Nat × Int
+  | 0, k => (1, k)
+  | fuel + 1, k =>
+    let c := decCandidates lo v hi den closed k
+    if c.1 ≤ c.2.1 ∧ 1 ≤ c.2.1 then
+      (Nat.max 1 (if c.2.2 < c.1 then c.1 else if c.2.1 < c.2.2 then c.2.1 else c.2.2), k)
+    else shortestFrom lo v hi den closed fuel (k - 1)
+
+/-- `(d, k)` with `|x| = d·10^k` the shortest decimal that reads back as the double -/
+def shortestDec (bits : Nat) : Nat × Int :=
+  let ef := bits / 4503599627370496 % 2048
+  let mf := bits % 4503599627370496
+  let m := if ef = 0 then mf else 4503599627370496 + mf
+  let e2 : Int := (if ef = 0 then 1 else (ef : Int)) - 1075 - 2      -- all quantities are scaled by 4
+  let v := 4 * m
+  let hi := v + 2
+  let lo := v - (if mf = 0 ∧ 1 < ef then 1 else 2)
+  let closed := m % 2 == 0
+  let num := if e2 < 0 then 1 else 2 ^ e2.natAbs
+  let den := if e2 < 0 then 2 ^ e2.natAbs else 1
+  let kStart : Int := ((e2 + 56) * 30103) / 100000 + 2
+  shortestFrom (lo * num) (v * num) (hi * num) den closed 800 kStart
+
+def zeros (n : Nat) : List Char := List.replicate n '0'
+
+/-- ryu's `format64` layout of the decimal `ds·10^k` (`ds` = the digits) -/
+def layoutF (sign ds : List Char) (k : Int) : List Char :=
+  let len : Int := ds.length
+  let kk := len + k
+  if 0 ≤ k ∧ kk ≤ 16 then sign ++ (ds ++ (zeros k.natAbs ++ ['.', '0']))
+  else if 0 < kk ∧ kk ≤ 16 then sign ++ (ds.take kk.natAbs ++ ('.' :: ds.drop kk.natAbs))
+  else if -5 < kk ∧ kk ≤ 0 then sign ++ ('0' :: '.' :: (zeros kk.natAbs ++ ds))
+  else if ds.length = 1 then sign ++ (ds ++ ('e' :: intDigits (kk - 1)))
+  else sign ++ (ds.take 1 ++ ('.' :: (ds.drop 1 ++ ('e' :: intDigits (kk - 1)))))
+
+/-- ryu's `format64` for a finite double -/
+def f64Text (bits : Nat) : List Char :=
+  let sign : List Char := if bits / 9223372036854775808 % 2 = 1 then ['-'] else []
+  if bits % 9223372036854775808 = 0 then sign ++ ['0', '.', '0']
+  else
+    let dk := shortestDec bits
+    layoutF sign (natDigits dk.1) dk.2
+
 /-! ## image of a value -/
 
 inductive JR (α : Type) where
   | ok (a : α)
   /-- serde_json refuses (map key without string form): the filter fails, nothing is emitted -/
   | refuse
-  /-- needs the shortest-round-trip float printer (ryu) or an object: not modelled -/
+  /-- a dynamic object: not modelled -/
   | unmodelled
   deriving Repr, Inhabited
 
@@ -63,7 +132,7 @@ def keyOf : V → JR (List Char)
   | .str s _ => .ok s
   | .int _ i => .ok (intDigits i)
   | .bool b => .ok (if b then ['t', 'r', 'u', 'e'] else ['f', 'a', 'l', 's', 'e'])
-  | .f64 bits => if f64Finite bits then .unmodelled else .refuse
+  | .f64 bits => if f64Finite bits then .ok (f64Text bits) else .refuse   -- "float key must be finite"
   | .obj _ => .unmodelled
   | _ => .refuse
 
@@ -74,7 +143,7 @@ def jsonOf : V → JR J
   | .invalid => .ok .null
   | .bool b => .ok (.bool b)
   | .int _ i => .ok (.num (intDigits i))
-  | .f64 bits => if f64Finite bits then .unmodelled else .ok .null
+  | .f64 bits => if f64Finite bits then .ok (.num (f64Text bits)) else .ok .null
   | .str s _ => .ok (.str s)
   | .bytes b => .ok (.arr (b.map fun n => .num (natDigits n)))
   | .seq _ xs => match jsonOfList xs with
@@ -241,46 +310,95 @@ def skipWs : List Char → List Char
   | [] => []
   | c :: rest => if isWs c then skipWs rest else c :: rest
 
+def isDigit (c : Char) : Bool := 48 ≤ c.toNat && c.toNat ≤ 57
+
 def isNumChar (c : Char) : Bool :=
-  (48 ≤ c.toNat && c.toNat ≤ 57) || c = '-' || c = '+' || c = '.' || c = 'e' || c = 'E'
+  isDigit c || c = '-' || c = '+' || c = '.' || c = 'e' || c = 'E'
 
 def spanNum : List Char → List Char × List Char
   | [] => ([], [])
   | c :: rest => if isNumChar c then let r := spanNum rest; (c :: r.1, r.2) else ([], c :: rest)
 
+def spanDigits : List Char → List Char × List Char
+  | [] => ([], [])
+  | c :: rest => if isDigit c then let r := spanDigits rest; (c :: r.1, r.2) else ([], c :: rest)
+
+/-- `[+-]?[0-9]+` -/
+def validExp (s : List Char) : Bool :=
+  let body := match s with
+    | c :: r => if c = '+' ∨ c = '-' then r else c :: r
+    | [] => []
+  let sp := spanDigits body
+  !sp.1.isEmpty && sp.2.isEmpty
+
+/-- `([eE] exp)?` -/
+def validExpOpt : List Char → Bool
+  | [] => true
+  | c :: r => (c = 'e' || c = 'E') && validExp r
+
+/-- `(\.[0-9]+)? ([eE][+-]?[0-9]+)?` -/
+def validFracExp : List Char → Bool
+  | [] => true
+  | c :: r =>
+    if c = '.' then
+      let sp := spanDigits r
+      !sp.1.isEmpty && validExpOpt sp.2
+    else validExpOpt (c :: r)
+
+/-- `(0|[1-9][0-9]*)(\.[0-9]+)?([eE][+-]?[0-9]+)?` -/
+def validBody : List Char → Bool
+  | [] => false
+  | c :: r =>
+    if c = '0' then validFracExp r
+    else if isDigit c then validFracExp (spanDigits r).2
+    else false
+
+/-- the JSON number grammar `-?(0|[1-9][0-9]*)(\.[0-9]+)?([eE][+-]?[0-9]+)?` -/
+def validNum : List Char → Bool
+  | [] => false
+  | c :: r => if c = '-' then validBody r else validBody (c :: r)
+
+/-- the three literals -/
+def pLit : List Char → Option (J × List Char)
+  | 'n' :: 'u' :: 'l' :: 'l' :: r => some (.null, r)
+  | 't' :: 'r' :: 'u' :: 'e' :: r => some (.bool true, r)
+  | 'f' :: 'a' :: 'l' :: 's' :: 'e' :: r => some (.bool false, r)
+  | _ => none
+
 mutual
-/-- a value (leading whitespace allowed); `fuel` bounds the nesting + length -/
+/-- a value (leading whitespace allowed); `fuel` bounds the size of the value -/
 def pValue : Nat → List Char → Option (J × List Char)
   | 0, _ => none
   | fuel + 1, cs =>
     match skipWs cs with
-    | 'n' :: 'u' :: 'l' :: 'l' :: r => some (.null, r)
-    | 't' :: 'r' :: 'u' :: 'e' :: r => some (.bool true, r)
-    | 'f' :: 'a' :: 'l' :: 's' :: 'e' :: r => some (.bool false, r)
-    | '"' :: r =>
-      match parseStrBody r with
-      | some (s, r') => some (.str s, r')
-      | none => none
-    | '[' :: r =>
-      match skipWs r with
-      | ']' :: r' => some (.arr [], r')
-      | r' =>
-        match pElems fuel r' with
-        | some (xs, r'') => some (.arr xs, r'')
-        | none => none
-    | '{' :: r =>
-      match skipWs r with
-      | '}' :: r' => some (.obj [], r')
-      | r' =>
-        match pMembers fuel r' with
-        | some (ms, r'') => some (.obj ms, r'')
-        | none => none
-    | c :: r =>
-      if isNumChar c then
-        let sp := spanNum (c :: r)
-        some (.num sp.1, sp.2)
-      else none
     | [] => none
+    | c :: r =>
+      if c = '"' then
+        match parseStrBody r with
+        | some (s, r') => some (.str s, r')
+        | none => none
+      else if c = '[' then
+        match skipWs r with
+        | [] => none
+        | c2 :: r2 =>
+          if c2 = ']' then some (.arr [], r2)
+          else
+            match pElems fuel (c2 :: r2) with
+            | some (xs, r') => some (.arr xs, r')
+            | none => none
+      else if c = '{' then
+        match skipWs r with
+        | [] => none
+        | c2 :: r2 =>
+          if c2 = '}' then some (.obj [], r2)
+          else
+            match pMembers fuel (c2 :: r2) with
+            | some (ms, r') => some (.obj ms, r')
+            | none => none
+      else if isNumChar c then
+        let sp := spanNum (c :: r)
+        if validNum sp.1 then some (.num sp.1, sp.2) else none
+      else pLit (c :: r)
 /-- one or more elements, then `]` -/
 def pElems : Nat → List Char → Option (List J × List Char)
   | 0, _ => none
@@ -289,35 +407,43 @@ def pElems : Nat → List Char → Option (List J × List Char)
     | none => none
     | some (x, r) =>
       match skipWs r with
-      | ',' :: r' =>
-        match pElems fuel r' with
-        | some (xs, r'') => some (x :: xs, r'')
-        | none => none
-      | ']' :: r' => some ([x], r')
-      | _ => none
+      | [] => none
+      | c :: r' =>
+        if c = ',' then
+          match pElems fuel r' with
+          | some (xs, r'') => some (x :: xs, r'')
+          | none => none
+        else if c = ']' then some ([x], r')
+        else none
 /-- one or more members, then `}` -/
 def pMembers : Nat → List Char → Option (List (List Char × J) × List Char)
   | 0, _ => none
   | fuel + 1, cs =>
     match skipWs cs with
-    | '"' :: r =>
-      match parseStrBody r with
-      | none => none
-      | some (k, r1) =>
-        match skipWs r1 with
-        | ':' :: r2 =>
-          match pValue fuel r2 with
-          | none => none
-          | some (v, r3) =>
-            match skipWs r3 with
-            | ',' :: r4 =>
-              match pMembers fuel r4 with
-              | some (ms, r5) => some ((k, v) :: ms, r5)
+    | [] => none
+    | q :: r =>
+      if q = '"' then
+        match parseStrBody r with
+        | none => none
+        | some (k, r1) =>
+          match skipWs r1 with
+          | [] => none
+          | c :: r2 =>
+            if c = ':' then
+              match pValue fuel r2 with
               | none => none
-            | '}' :: r4 => some ([(k, v)], r4)
-            | _ => none
-        | _ => none
-    | _ => none
+              | some (v, r3) =>
+                match skipWs r3 with
+                | [] => none
+                | c' :: r4 =>
+                  if c' = ',' then
+                    match pMembers fuel r4 with
+                    | some (ms, r5) => some ((k, v) :: ms, r5)
+                    | none => none
+                  else if c' = '}' then some ([(k, v)], r4)
+                  else none
+            else none
+      else none
 end
 
 /-- a whole document: one value, then only whitespace -/
@@ -325,6 +451,86 @@ def parseJ (text : List Char) : Option J :=
   match pValue (text.length + 1) text with
   | some (j, r) => if (skipWs r).isEmpty then some j else none
   | none => none
+
+/-! ## the iteration order of the value map (`BTreeMap<Value, Value>`): `impl Ord for Value` on keys
+
+Kinds first (`ValueKind` order: undefined < none < bool < number < string < bytes < …), numbers by
+exact value (whatever their representation), strings and bytes lexicographically. -/
+
+def kindRank : V → Nat
+  | .undefined => 0
+  | .none => 1
+  | .bool _ => 2
+  | .int _ _ => 3
+  | .f64 _ => 3
+  | .str _ _ => 4
+  | .bytes _ => 5
+  | .seq _ _ => 6
+  | .map _ => 7
+  | .obj _ => 8
+  | .invalid => 9
+
+/-- a finite double as `(numerator, binary exponent)` -/
+def f64Exact (bits : Nat) : Int × Int :=
+  let ef := bits / 4503599627370496 % 2048
+  let mf := bits % 4503599627370496
+  let m : Int := if ef = 0 then mf else 4503599627370496 + mf
+  let e : Int := (if ef = 0 then 1 else (ef : Int)) - 1075
+  (if bits / 9223372036854775808 % 2 = 1 then -m else m, e)
+
+def numExact : V → Int × Int
+  | .int _ i => (i, 0)
+  | .f64 b => f64Exact b
+  | _ => (0, 0)
+
+def cmpExact (x y : Int × Int) : Ordering :=
+  let r := min x.2 y.2
+  compare (x.1 * 2 ^ (x.2 - r).natAbs) (y.1 * 2 ^ (y.2 - r).natAbs)
+
+def cmpCharList : List Char → List Char → Ordering
+  | [], [] => .eq
+  | [], _ :: _ => .lt
+  | _ :: _, [] => .gt
+  | a :: as, b :: bs => (compare a.toNat b.toNat).then (cmpCharList as bs)
+
+def cmpNatList : List Nat → List Nat → Ordering
+  | [], [] => .eq
+  | [], _ :: _ => .lt
+  | _ :: _, [] => .gt
+  | a :: as, b :: bs => (compare a b).then (cmpNatList as bs)
+
+/-- `Value::cmp` on map keys that have a JSON string form (and none / bytes) -/
+def keyCmp (a b : V) : Ordering :=
+  match compare (kindRank a) (kindRank b) with
+  | .eq =>
+    match a, b with
+    | .bool x, .bool y => compare x.toNat y.toNat
+    | .str x _, .str y _ => cmpCharList x y          -- UTF-8 byte order = code point order
+    | .bytes x, .bytes y => cmpNatList x y
+    | .int _ _, _ => cmpExact (numExact a) (numExact b)
+    | .f64 _, _ => cmpExact (numExact a) (numExact b)
+    | _, _ => .eq
+  | o => o
+
+def insertSorted (p : V × V) : List (V × V) → List (V × V)
+  | [] => [p]
+  | q :: rest => if keyCmp p.1 q.1 == .lt then p :: q :: rest else q :: insertSorted p rest
+
+def sortEntries (kvs : List (V × V)) : List (V × V) := kvs.foldr insertSorted []
+
+mutual
+/-- every map of the value in the iteration order of the `BTreeMap` build -/
+def sortMaps : V → V
+  | .seq t xs => .seq t (sortMapsList xs)
+  | .map kvs => .map (sortEntries (sortMapsPairs kvs))
+  | v => v
+def sortMapsList : List V → List V
+  | [] => []
+  | x :: xs => sortMaps x :: sortMapsList xs
+def sortMapsPairs : List (V × V) → List (V × V)
+  | [] => []
+  | (k, v) :: rest => (sortMaps k, sortMaps v) :: sortMapsPairs rest
+end
 
 mutual
 def J.beq : J → J → Bool
